@@ -35,13 +35,13 @@ def run(tier, seed, only=None):
     run.assumptions = [T3, T4, LOGGING, UU.BOUND_NOTE,
                        'structural validity is proved as EQUALITY with a reference encoding built only from the structural combinators '
                        'header / attr (1- or 2-octet length chosen by size, extended-length bit agreeing) / prefix (ceil(len/8) octets)',
-                       'IPv6 flowspec is not under contract; the MP families are under contract in C07 (value contracts against reference encodings, which include every length field)']
+                       'IPv6 flowspec: only the prefix component encoder is under contract; the MP families are under contract in C07 (value contracts against reference encodings, which include every length field)']
     units = [u for u in UU.units((ID,)) if u.name.endswith('.construct')]
     units += [u for u in UU.update_units((ID,)) if 'construct' in u.name]
     units += [u for u in C14.units_simple() if u.name.endswith('.construct')] + [C14.unit_open_construct()]
     from .framing_units import framing_units
     units += framing_units((ID,), strict=False)
-    units += UU.tunnel_encaps_units((ID,)) + UU.pmsi_units((ID,)) + UU.srte_units((ID,))
+    units += UU.tunnel_encaps_units((ID,)) + UU.pmsi_units((ID,)) + UU.srte_units((ID,)) + UU.flowspec6_units((ID,))
     from .framing_units import encoder_step_units
     units += encoder_step_units((ID,))
     for u in units:
